@@ -170,4 +170,89 @@ theorem symbolic_heads {h : Hist} {o : LoadOpts} {m : LMap} (hl : load h o = .ok
         List.map_cons]
   exact key m.realHeads hsub
 
+/-! ### relative forms: the walk covers exactly the requested distance -/
+
+/-- a chain of exactly `n` links along `succ` -/
+def PathN (succ : Id → List Id) : Nat → Id → Id → Prop
+  | 0, a, b => a = b
+  | n + 1, a, b => ∃ c ∈ succ a, PathN succ n c b
+
+theorem filterForLineage_sub (m : LMap) (l : List Id) (a : String) (b : Bool) (l' : List Id)
+    (h : filterForLineage m l a b = .ok l') : ∀ x ∈ l', x ∈ l := by
+  unfold filterForLineage at h
+  simp only [bind, Except.bind, pure, Except.pure] at h
+  split at h
+  · simp at h
+  · simp only [Except.ok.injEq] at h
+    subst h
+    intro x hx; exact (List.mem_filter.mp hx).1
+
+theorem children_single {children : List Id} {nxt : Option Id} {mk : Bool}
+    (h : (match children with
+      | [] => (Except.ok none : Except Err (Option (Option Id × Bool)))
+      | [c] => Except.ok (some (some c, false))
+      | _ => throw Err.revisionError) = Except.ok (some (nxt, mk))) :
+    ∃ c, children = [c] ∧ nxt = some c ∧ mk = false := by
+  match children, h with
+  | [], h => simp at h
+  | [c], h =>
+    simp only [Except.ok.injEq, Option.some.injEq, Prod.mk.injEq] at h
+    exact ⟨c, rfl, h.1.symm, h.2.symm⟩
+  | _ :: _ :: _, h => simp [throw, throwThe, MonadExceptOf.throw] at h
+
+/-- one step up goes to a down-revision child -/
+theorem walkStep_up (m : LMap) (label : Option String) (s : Id) (nxt : Option Id) (mk : Bool)
+    (h : walkStep m true label (some s) false = .ok (some (nxt, mk))) :
+    ∃ c, nxt = some c ∧ mk = false ∧ c ∈ m.nextrev s := by
+  unfold walkStep at h
+  simp only [if_true, bind, Except.bind, pure, Except.pure] at h
+  cases label with
+  | none =>
+    simp only at h
+    obtain ⟨c, hc, h1, h2⟩ := children_single h
+    exact ⟨c, h1, h2, by rw [hc]; exact List.mem_cons_self⟩
+  | some l =>
+    simp only at h
+    by_cases hl : l.isEmpty = true
+    · simp only [hl, if_true] at h
+      obtain ⟨c, hc, h1, h2⟩ := children_single h
+      exact ⟨c, h1, h2, by rw [hc]; exact List.mem_cons_self⟩
+    · simp only [hl, Bool.false_eq_true, if_false] at h
+      cases hf : filterForLineage m (m.nextrev s) l false with
+      | error e => simp [hf] at h
+      | ok children =>
+        simp only [hf] at h
+        obtain ⟨c, hc, h1, h2⟩ := children_single h
+        exact ⟨c, h1, h2, filterForLineage_sub m _ l false children hf c (by rw [hc]; exact List.mem_cons_self)⟩
+
+/-- **`id+N` / `+N` never lands at a different distance**: when the upward walk (the relative
+upgrade forms, with `assert_relative_length`) returns a revision, that revision is exactly `n`
+down-revision links above the start, every link going to a down-revision child. -/
+theorem walk_up_exact (m : LMap) (label : Option String) :
+    ∀ (n : Nat) (s r : Id), walk.go m (1 : Int) label true n (some s) false = .ok (some (some r)) →
+      PathN m.nextrev n s r := by
+  intro n
+  induction n with
+  | zero =>
+    intro s r h
+    simp [walk.go] at h
+    exact h
+  | succ k ih =>
+    intro s r h
+    simp only [walk.go, bind, Except.bind] at h
+    have hdec : (decide ((1 : Int) > 0)) = true := by decide
+    simp only [hdec] at h
+    cases hv : walkStep m true label (some s) false with
+    | error e => simp [hv] at h
+    | ok v =>
+      simp only [hv] at h
+      cases v with
+      | none => simp [pure, Except.pure] at h
+      | some pr =>
+        obtain ⟨nxt, mk⟩ := pr
+        simp only at h
+        obtain ⟨c, h1, h2, h3⟩ := walkStep_up m label s nxt mk hv
+        subst h1; subst h2
+        exact ⟨c, h3, ih c r h⟩
+
 end C16
